@@ -115,7 +115,8 @@ def parse_roundtrip(k1: str, v1: str, k2: str, v2: str, n: int, suf: str, ext: s
 
 
 # ------------------------------------------------------------------ 2. applicability predicate
-_DIRS = [(), ("sub-1",), ("sub-1", "ses-1"), ("sub-10",), ("sub-1", "ses-2")]
+_DIRS = [(), ("sub-1",), ("sub-1", "ses-1"), ("sub-10",), ("sub-1", "ses-2"), ("sub-1", "ses-1", "eeg")]
+_NDIRS_DEFAULT = 5      # the three-level directory (index 5) is used by sidecar_chain_deep only
 _ROOT = "/d"
 
 
@@ -174,7 +175,7 @@ def _one(s):
 
 
 def _ndirs():
-    return R.env_int("VP_NDIRS", len(_DIRS))
+    return R.env_int("VP_NDIRS", _NDIRS_DEFAULT)
 
 
 def _scene(nsc, specs, ssuf, fe, fsuf, fd):
@@ -220,6 +221,29 @@ def sidecar_chain(nsc: int, ae: str, ad: int, be: str, bd: int, ce: str, cd: int
     exp = M.chain(recs, fsuf, _DIRS[fd], fpairs)
     if exp is None:
         return True         # two applicable sidecars in one directory: BIDS forbids it, the property is silent
+    g = BidsFileGroup.__new__(BidsFileGroup)
+    g.root_path = _ROOT
+    g.suffix = "x"
+    g.sidecar_dir_dict = dir_dict
+    got = g.get_sidecars_from_path(fobj)
+    return got == [objs[i].file_path for i in exp]
+
+
+def sidecar_chain_deep(nsc: int, ae: str, ad: int, be: str, bd: int, ssuf: str, fe: str, fsuf: str) -> bool:
+    """
+    pre: 0 <= nsc <= 2
+    pre: 0 <= ad < len(_DIRS) and 0 <= bd < len(_DIRS)
+    pre: _envcell(fd=5, ad=ad, bd=bd)
+    pre: _unused_fixed(nsc, ae, ad, be, bd, "", 0)
+    pre: _emap(ae, 1) and _emap(be, 1) and _emap(fe, 1)
+    pre: _one(ssuf) and _one(fsuf)
+    post: _
+    """
+    fd = 5                  # the data file sits three directories below the root: /d/sub-1/ses-1/eeg
+    objs, recs, dir_dict, by_path, fobj, fpairs = _scene(nsc, [(ae, ad), (be, bd)], ssuf, fe, fsuf, fd)
+    exp = M.chain(recs, fsuf, _DIRS[fd], fpairs)
+    if exp is None:
+        return True
     g = BidsFileGroup.__new__(BidsFileGroup)
     g.root_path = _ROOT
     g.suffix = "x"
@@ -460,6 +484,17 @@ HARNESSES = [
                                                   "sidecar_dir_dict given (directory-list order = sidecar index order)"],
         outside="sidecars with different suffixes inside one group (decided per pair by sidecar_applies); more than "
                 "1 entity per sidecar; directory discovery"),
+    R.H("sidecar_chain_deep", _T_WALK,
+        quick=R.tier(cells=R.product_cells([{"VP_AD": d} for d in (0, 1, 2, 5)], [{"VP_BD": d} for d in (0, 1, 2, 5)]),
+                     timeout=300,
+                     bound="data file in /d/sub-1/ses-1/eeg (three levels); 0..2 sidecars, each in any of root, sub-1, "
+                           "sub-1/ses-1, sub-1/ses-1/eeg with an entity map "
+                           "of <= 1 entry; file entity map <= 1 entry; keys, values, suffixes any 1-character strings"),
+        what="same as sidecar_chain for a file three directories deep: every intermediate directory on the way from "
+             "the root contributes its applicable sidecar, root first",
+        oracle="models/bids_ref.py chain", stubs=[_S_BARE, _S_DIRS + " plus /d/sub-1/ses-1/eeg",
+                                                  "BidsFileGroup made with __new__; root_path and sidecar_dir_dict given"],
+        outside="deeper trees; more than two sidecars on a three-level path"),
     R.H("merge_deeper_wins", _T_MERGE,
         quick=R.tier(cells=R.int_cells("VP_NFILES", 0, 2) + R.product_cells(R.int_cells("VP_NFILES", 3, 3),
                                                                              R.int_cells("VP_L0", 0, 2)),
